@@ -162,13 +162,20 @@ func (e *Engine) evalBuiltin(name string, cx *ast.CallExpr, st *State) Value {
 				sz := term(e.eval(cx.Args[1], st))
 				e.assert(st, mkCmp(">=", sz, mkInt(0)), "make-chan-size", e.src(cx), nil)
 			}
-			id := e.fresh("ch", SInt)
+			var id *Term
+			if e.arrayMode {
+				// fresh id = the next unused stream number: distinct from every stream that exists
+				id = st.mem["@nextid"]
+				st.mem["@nextid"] = mkArith("+", id, mkInt(1))
+			} else {
+				id = e.fresh("ch", SInt)
+			}
 			st.assume(mkCmp(">=", e.slen(id), mkInt(0)))
 			e.idTerms[id.String()] = id
 			e.madeHere[id.String()] = true
-			st.mem["closed:"+id.String()] = tFalse
-			st.mem["sent:"+id.String()] = mkInt(0)
-			st.mem["consumed:"+id.String()] = mkInt(0)
+			e.setClosed(st, id, tFalse)
+			e.setSent(st, id, mkInt(0))
+			e.setConsumed(st, id, mkInt(0))
 			return VStream{ID: id, Elem: u.Elem()}
 		case *types.Slice:
 			n := term(e.eval(cx.Args[1], st))
@@ -486,7 +493,11 @@ func (e *Engine) runDefers(outs []Out) []Out {
 		for i := len(ds) - 1; i >= 0; i-- {
 			var next []Out
 			for _, c := range cur {
-				e.eval(ds[i].call, c.st)
+				if ds[i].bulk != nil {
+					e.bulkClose(c.st, *ds[i].bulk, ds[i].where)
+				} else {
+					e.eval(ds[i].call, c.st)
+				}
 				next = append(next, c)
 			}
 			cur = next
@@ -494,6 +505,22 @@ func (e *Engine) runDefers(outs []Out) []Out {
 		res = append(res, cur...)
 	}
 	return res
+}
+
+// close every element of a slice of channels (deferred in a loop)
+func (e *Engine) bulkClose(st *State, sl VSlice, where string) {
+	if !e.arrayMode {
+		unsup("deferred close of a slice of channels outside array mode at %s", where)
+	}
+	e.nfresh++
+	j := mkVar(fmt.Sprintf("j$%d", e.nfresh), SInt)
+	rng := mkAnd(mkCmp("<=", mkInt(0), j), mkCmp("<", j, sl.Len))
+	el := mkSelect(sl.Arr, j)
+	e.assert(st, mkForall([]*Term{j}, mkImplies(rng, mkNot(e.closed(st, el))), nil), "close-once", where, nil)
+	sentA := st.mem["@sent"]
+	e.freshCursorArray(st, "@closed")
+	nc := st.mem["@closed"]
+	st.assume(mkForall([]*Term{j}, mkImplies(rng, mkAnd(mkSelect(nc, el), mkEq(mkApp("slen", SInt, el), mkSelect(sentA, el)))), [][]*Term{{mkSelect(sl.Arr, j)}}))
 }
 
 // ---------------------------------------------------------------------------------------------
@@ -688,13 +715,13 @@ func (e *Engine) callContract(c *Contract, fn *types.Func, recvName string, recv
 			}
 			nc := e.fresh("consumed", SInt)
 			st.assume(mkAnd(mkCmp("<=", e.consumed(st, s.ID), nc), mkCmp("<=", nc, e.slen(s.ID))))
-			st.mem["consumed:"+ids] = nc
+			e.setConsumed(st, s.ID, nc)
 		}
 		if dir != types.RecvOnly {
 			ns := e.fresh("sent", SInt)
 			st.assume(mkCmp("<=", e.sent(st, s.ID), ns))
-			st.mem["sent:"+ids] = ns
-			st.mem["closed:"+ids] = e.fresh("closed", SBool)
+			e.setSent(st, s.ID, ns)
+			e.setClosed(st, s.ID, e.fresh("closed", SBool))
 		}
 	}
 	for i := 0; i < np && i < len(args); i++ {
@@ -706,6 +733,9 @@ func (e *Engine) callContract(c *Contract, fn *types.Func, recvName string, recv
 				dir = ch.Dir()
 			}
 			handStream(p.Name(), a, dir)
+			if dir != types.SendOnly && hasScalarResult(isig) {
+				st.readSet[a.ID.String()] = true
+			}
 		case VSlice:
 			if isChan(a.Elem) {
 				// slice of streams handed over: every element
@@ -713,8 +743,14 @@ func (e *Engine) callContract(c *Contract, fn *types.Func, recvName string, recv
 					for k := int64(0); k < a.Len.Int.Int64(); k++ {
 						handStream(p.Name(), VStream{ID: mkSelect(a.Arr, mkInt(k)), Elem: a.Elem.Underlying().(*types.Chan).Elem()}, types.RecvOnly)
 					}
-				} else {
+				} else if e.arrayMode {
 					e.notes["symbolic slice of streams passed to "+callee+": element ownership not tracked"] = true
+					e.freshCursorArray(st, "@consumed")
+					if hasScalarResult(isig) {
+						st.readFam = append(st.readFam, famRead{arr: a.Arr, ln: a.Len})
+					}
+				} else {
+					unsup("symbolic slice of streams passed to %s outside array mode", callee)
 				}
 			}
 		}
@@ -759,9 +795,32 @@ func (e *Engine) callContract(c *Contract, fn *types.Func, recvName string, recv
 			v = e.freshValue(fmt.Sprintf("%s.r%d", sanitize(c.Key), i), rt, st)
 		}
 		switch r := v.(type) {
+		case VSlice:
+			if isChan(r.Elem) && e.arrayMode {
+				// fresh, pairwise distinct stream ids; nothing consumed yet
+				oldN := st.mem["@nextid"]
+				e.freshCursorArray(st, "@nextid")
+				newN := st.mem["@nextid"]
+				oldC := st.mem["@consumed"]
+				nc := e.fresh("consumedA", sortIntArr)
+				st.mem["@consumed"] = nc
+				e.nfresh += 3
+				j := mkVar(fmt.Sprintf("j$%d", e.nfresh), SInt)
+				j2 := mkVar(fmt.Sprintf("j$%d", e.nfresh-1), SInt)
+				sv := mkVar(fmt.Sprintf("s$%d", e.nfresh-2), SInt)
+				rng := func(x *Term) *Term { return mkAnd(mkCmp("<=", mkInt(0), x), mkCmp("<", x, r.Len)) }
+				st.assume(mkForall([]*Term{j}, mkImplies(rng(j), mkAnd(mkCmp("<=", oldN, mkSelect(r.Arr, j)), mkCmp("<", mkSelect(r.Arr, j), newN), mkCmp(">=", mkApp("slen", SInt, mkSelect(r.Arr, j)), mkInt(0)))), [][]*Term{{mkSelect(r.Arr, j)}}))
+				st.assume(mkForall([]*Term{j, j2}, mkImplies(mkAnd(rng(j), rng(j2), mkCmp("<", j, j2)), mkNot(mkEq(mkSelect(r.Arr, j), mkSelect(r.Arr, j2)))), [][]*Term{{mkSelect(r.Arr, j), mkSelect(r.Arr, j2)}}))
+				st.assume(mkForall([]*Term{sv}, mkEq(mkSelect(nc, sv), mkIte(mkCmp("<", sv, oldN), mkSelect(oldC, sv), mkInt(0))), [][]*Term{{mkSelect(nc, sv)}}))
+			}
 		case VStream:
 			st.owned[r.ID.String()] = callee + " result at " + where
 			e.idTerms[r.ID.String()] = r.ID
+			if e.arrayMode {
+				st.assume(mkCmp("<=", st.mem["@nextid"], r.ID))
+				st.mem["@nextid"] = mkArith("+", r.ID, mkInt(1))
+				e.setConsumed(st, r.ID, mkInt(0))
+			}
 		case VTerm:
 			if r.T.Sort == SRef {
 				e.localRefs[r.T.String()] = true
@@ -932,6 +991,15 @@ func (e *Engine) capturedMutatedRefs(lit *ast.FuncLit, st *State) []VTerm {
 		return true
 	})
 	return out
+}
+
+func hasScalarResult(sig *types.Signature) bool {
+	for i := 0; i < sig.Results().Len(); i++ {
+		if !typeHasChan(sig.Results().At(i).Type()) {
+			return true
+		}
+	}
+	return false
 }
 
 // does the spec expression mention one of the names (or old)?
